@@ -39,6 +39,7 @@ var colSpecs = []colSpec{
 	{"pkg/variants/variants.go", "WriteVariants", [][2]string{{"start", "start"}, {"end", "stop"}, {"v.Position", "pos"}}, nil, "sa", true, false},
 	{"pkg/sam/sam.go", "groupSamRecords", [][2]string{{"rec.Flags", "f"}}, nil, "", false, true},
 	{"pkg/sam/indels.go", "getSamRecords", [][2]string{{"rec.Flags", "f"}}, nil, "", false, true},
+	{"pkg/variants/variants.go", "AggregateWriteVariants", [][2]string{{"start", "start"}, {"end", "stop"}, {"v.Position", "pos"}}, nil, "", true, true},
 }
 
 type colTr struct {
@@ -289,7 +290,11 @@ func dumpCols(root string) string {
 			ast.Inspect(fd.Body, func(n ast.Node) bool {
 				if is, ok := n.(*ast.IfStmt); ok && is.Else == nil && endsInJump(is.Body) {
 					if br, ok := is.Body.List[len(is.Body.List)-1].(*ast.BranchStmt); ok && br.Tok == token.CONTINUE {
-						if c := t.boolean(is.Cond); !strings.Contains(c, "untranslatable") {
+						c := t.boolean(is.Cond)
+						if sp.ints {
+							c = t.intBool(is.Cond)
+						}
+						if !strings.Contains(c, "untranslatable") && !strings.Contains(c, "refID") && !strings.Contains(c, "nil") {
 							conds = append(conds, c)
 						}
 					}
